@@ -1522,8 +1522,10 @@ func (m *Model) create(c *Conn, r Req, pr *pre, what string) error {
 			if after.Size() != 0 {
 				return failf("create-effect", "%s reported success but %s has %d bytes (not truncated)", what, clean, after.Size())
 			}
-			m.wo = woState{open: true, path: real}
+			// whatever else was open on this path now sees another (or a truncated) file; the new write file itself
+			// is fully known: empty, every write appends
 			m.touched(real)
+			m.wo = woState{open: true, path: real}
 		}
 		return nil
 	}
